@@ -33,7 +33,8 @@ MANIFEST = dict(
          "peer's stream from the first unconsumed byte (so loss, duplication or reordering across buffer growth, compaction and cancel/re-wait is a "
          "mismatch), success only when k bytes have arrived, EOF/error only when the kernel answered so, one callback per wait, none after cancel, and "
          "a wait whose bytes were sent must complete. Writer: what send() received is always a prefix of the concatenation of all writes and the whole "
-         "of it at quiescence; after a transport failure the failure callback fires once, nothing more is sent and later writes are discarded. Readers are also freed from inside their own callbacks (as http.c does), and a bigwait sub issues one wait for about 32 MiB.",
+         "of it at quiescence; after a transport failure the failure callback fires once, nothing more is sent and later writes are discarded. Readers are also freed from inside their own callbacks (as http.c does), and a bigwait sub issues one wait for about 32 MiB. "
+         "After an end-of-stream without POLLHUP (the peer half-closed) a writer on the reader's own descriptor must still deliver every byte (the simulated kernel models shutdown()).",
     note="Trusted: the kernel model (engine/simk.h), clang 14 sanitizers, rapidcheck. The buffer-geometry mirror in the harness is used only to classify "
          "cases (growth / compaction), never for verdicts.",
 )
